@@ -1177,7 +1177,8 @@ class Context:
             """String.fromCharCode - each argument is taken as a ToUint16 code unit."""
             units = []
             for arg in args:
-                n = to_integer_or_infinity(arg)
+                # ToNumber first (objects through their valueOf / toString)
+                n = to_integer_or_infinity(to_number(arg))
                 units.append(chr(n & 0xFFFF) if isinstance(n, int) else "\x00")
             return "".join(units)
 
